@@ -63,9 +63,18 @@ def run(rep, tier, seed):
         "clean), nor the reservation counter mid-run"]
     plan = [(2, 6), (3, 3)] if tier != "thorough" else [(2, 8), (3, 5)]
     nontriv = 0
-    for M, depth in plan:
-        stats, viols = e2.bfs_parallel(M, depth)
-        sc = rep.scope("E2-cluster-M%d-depth%d" % (M, depth))
+    # (+ the same search on machines whose distinct ids differ only in
+    # letter case or surrounding blanks)
+    plan = [(M, d, None) for M, d in plan] + \
+        [(3, 3 if tier != "thorough" else 5, "case")]
+    for M, depth, ids in plan:
+        e2.ID_STYLE = ids
+        try:
+            stats, viols = e2.bfs_parallel(M, depth)
+        finally:
+            e2.ID_STYLE = None
+        sc = rep.scope("E2-cluster-M%d-depth%d%s" % (
+            M, depth, "-%s-ids" % ids if ids else ""))
         sc["cases"] = stats["states"]
         sc["executions"] = stats["transitions"]
         sc["levels"] = stats["levels"]
@@ -80,7 +89,7 @@ def run(rep, tier, seed):
         for (clause, cause, detail), hist in viols:
             if clause.startswith("C02."):
                 rep.violation(clause, cause,
-                              {"engine": "E2", "M": M,
+                              {"engine": "E2", "M": M, "ids": ids,
                                "history": [list(h) for h in hist]},
                               detail, sc and "E2-cluster-M%d" % M)
         for h in stats.get("sample_histories", [])[-1:]:
@@ -105,8 +114,12 @@ def run(rep, tier, seed):
 
 def replay(payload):
     if payload.get("engine") == "E2":
-        vs = e2.replay_history(payload["M"],
-                               [tuple(h) for h in payload["history"]])
+        e2.ID_STYLE = payload.get("ids")
+        try:
+            vs = e2.replay_history(payload["M"],
+                                   [tuple(h) for h in payload["history"]])
+        finally:
+            e2.ID_STYLE = None
         return [{"clause": a, "cause": b, "detail": c} for a, b, c in vs
                 if a.startswith("C02.")]
     vs, _ = e1.replay_payload(payload, monitors_for)
